@@ -43,11 +43,15 @@ def gen_cases(wd, maxdev_by_n):
     return out, states
 
 
+_RF = rng("c05-layout")
+
+
 def real_read(binary, key):
     s = io.StringIO()
     L.Bf3File.write_bf3_format(s, {}, bytes(binary))
+    text = s.getvalue() if _RF.random() < 0.6 else L.reformat(_RF, s.getvalue())     # the text layout does not matter
     try:
-        g = L.Bf3File.read_file(io.StringIO(s.getvalue()), True, bytes(key))
+        g = L.Bf3File.read_file(io.StringIO(text), True, bytes(key))
         return True, L.proj_file(g)["comps"], None
     except Exception as e:                  # noqa: BLE001
         return False, [], L.exc_info(e)
@@ -137,10 +141,11 @@ def run(tier):
             raise MachineryError("nominal case 0 rejected by the real reader")
         # ---- C->S
         rec = L.Rec()
-        for binary, key in craft_edits(r, 150 if tier == "quick" else 3000):
+        for j, (binary, key) in enumerate(craft_edits(r, 150 if tier == "quick" else 3000)):
             s = io.StringIO()
             L.Bf3File.write_bf3_format(s, {}, binary)
-            L.rec_read(rec, s.getvalue(), key, True, False, wd)
+            # (every third one in another legal text layout: case, line width - odd widths too -, separators, CRLF)
+            L.rec_read(rec, s.getvalue() if j % 3 else L.reformat(r, s.getvalue()), key, True, False, wd)
         # payloads longer than 256 / 4096 bytes: the genuine file, and the file with ONE payload byte changed near the start,
         # in the middle and in the last block (the MAC covers every byte, however long the payload)
         large_ok = 0
